@@ -91,6 +91,12 @@ fn one_lzma_chunk<const CLASS: usize, const NS: usize, const L: usize, const PD:
         if PD < 0 {
             vassert!(!ok, "lzma2: a chunk whose payload needs more than its declared compressed size is rejected");
         }
+        if PD == 1 && expect_ok {
+            // one byte of slack: the decoder does not skip it - it is the next control byte
+            // (here the end byte), so the stream still ends right there
+            vassert!(ok, "lzma2: bytes of a chunk's declared compressed size that the coder did not need are parsed as what follows");
+            vassert!(rd.pos == end_at + 1, "lzma2: nothing beyond the end control byte is consumed, whatever the declared compressed size");
+        }
     }
     if ok {
         vassert!(props_ok, "lzma2: Ok implies legal properties (props < 225, lc+lp <= 4)");
@@ -361,7 +367,7 @@ pub fn lzma2_c3_n1_l1_pd0_ud0_pff() {
     one_lzma_chunk::<3, 1, 1, 0, 0, 255>()
 }
 
-//@ harness props=C02,C17,C11,C07 tier=thorough unwind=6 unwindset=process_mode:5,decompress:4,default_read_exact:4,one_lzma_chunk:30 mem_gb=6 timeout=600 native=no opt_covers=chunk_err,chunk_ok
+//@ harness props=C02,C17,C11,C07,C13 tier=quick unwind=6 unwindset=process_mode:5,decompress:4,default_read_exact:4,one_lzma_chunk:30 mem_gb=6 timeout=600 native=no opt_covers=chunk_err,chunk_ok
 //@ bound: LZMA2 stream: one LZMA chunk class 3 (props byte 0x5d), 2 abstract symbol(s) of 2 bytes, compressed-size field off by 1, uncompressed-size field off by 0; payload symbolic; end byte + 1 trailing byte
 #[cfg_attr(kani, kani::proof)]
 #[cfg_attr(kani, kani::stub(std::fmt::format, crate::verif_common::stub_format))]
@@ -727,4 +733,76 @@ pub fn lzma2_two_chunks_ct1_k2_c2_l2_ud0() {
 #[cfg_attr(kani, kani::stub(crate::decode::lzbuffer::LzAccumBuffer::from_stream, crate::decode::lzbuffer::verif_h::accum_from_stream_with_capacity))]
 pub fn lzma2_two_chunks_ct1_k2_c0_l2_ud1() {
     two_chunks::<1, 2, 0, 2, 1>()
+}
+
+/// Failing source: the K-th reader call (read or fill_buf) fails.
+fn lzma2_source_fails<const K: usize>() {
+    let mut t = Tape::<16>::new();
+    let body: [u8; 3] = t.bytes::<3>();
+    let f = [1u8, 0, 2, body[0], body[1], body[2], 0, 0xEE];
+    let mut dec = mk_decoder([script(1, K_LIT); 4]);
+    let mut rd = FailReader::<8>::new(f, 8, K);
+    let mut sink = RecSink::<8>::new();
+    let r = dec.decompress(&mut rd, &mut sink);
+    let ok = r.is_ok();
+    forget(r);
+    // the decoder makes 4 reader calls on this stream (status, size, payload, status)
+    vassert!(ok == (K >= 4), "lzma2: a failing source is an error (never success, never a panic)");
+    if !ok {
+        vassert!(sink.len == 0, "lzma2: nothing is delivered for a stream cut short by a read failure");
+    } else {
+        vassert!(sink.len == 3, "lzma2: full output when no call failed");
+    }
+    vcover!(true, "end_reached");
+    forget(dec);
+}
+
+//@ harness props=C12,C02 tier=thorough optional=yes unwind=8 unwindset=decompress:5,default_read_exact:4 mem_gb=6 timeout=600 native=no
+//@ bound: Lzma2Decoder::decompress on one uncompressed chunk (3 symbolic bytes) + end byte with the source failing on reader call 1
+#[cfg_attr(kani, kani::proof)]
+#[cfg_attr(kani, kani::stub(std::fmt::format, crate::verif_common::stub_format))]
+#[cfg_attr(kani, kani::stub(std::io::Error::is_interrupted, crate::verif_common::stub_not_interrupted))]
+#[cfg_attr(kani, kani::stub(crate::decode::lzbuffer::LzAccumBuffer::from_stream, crate::decode::lzbuffer::verif_h::accum_from_stream_with_capacity))]
+pub fn lzma2_source_fails_k1() {
+    lzma2_source_fails::<1>()
+}
+
+//@ harness props=C12,C02 tier=quick unwind=8 unwindset=decompress:5,default_read_exact:4 mem_gb=6 timeout=600 native=no
+//@ bound: Lzma2Decoder::decompress on one uncompressed chunk (3 symbolic bytes) + end byte with the source failing on reader call 2
+#[cfg_attr(kani, kani::proof)]
+#[cfg_attr(kani, kani::stub(std::fmt::format, crate::verif_common::stub_format))]
+#[cfg_attr(kani, kani::stub(std::io::Error::is_interrupted, crate::verif_common::stub_not_interrupted))]
+#[cfg_attr(kani, kani::stub(crate::decode::lzbuffer::LzAccumBuffer::from_stream, crate::decode::lzbuffer::verif_h::accum_from_stream_with_capacity))]
+pub fn lzma2_source_fails_k2() {
+    lzma2_source_fails::<2>()
+}
+
+//@ harness props=C12,C02 tier=quick unwind=8 unwindset=decompress:5,default_read_exact:4 mem_gb=6 timeout=600 native=no
+//@ bound: Lzma2Decoder::decompress on one uncompressed chunk (3 symbolic bytes) + end byte with the source failing on reader call 9
+#[cfg_attr(kani, kani::proof)]
+#[cfg_attr(kani, kani::stub(std::fmt::format, crate::verif_common::stub_format))]
+#[cfg_attr(kani, kani::stub(std::io::Error::is_interrupted, crate::verif_common::stub_not_interrupted))]
+#[cfg_attr(kani, kani::stub(crate::decode::lzbuffer::LzAccumBuffer::from_stream, crate::decode::lzbuffer::verif_h::accum_from_stream_with_capacity))]
+pub fn lzma2_source_fails_k9() {
+    lzma2_source_fails::<9>()
+}
+
+//@ harness props=C12,C02 tier=thorough optional=yes unwind=8 unwindset=decompress:5,default_read_exact:4 mem_gb=6 timeout=600 native=no
+//@ bound: Lzma2Decoder::decompress on one uncompressed chunk (3 symbolic bytes) + end byte with the source failing on reader call 0
+#[cfg_attr(kani, kani::proof)]
+#[cfg_attr(kani, kani::stub(std::fmt::format, crate::verif_common::stub_format))]
+#[cfg_attr(kani, kani::stub(std::io::Error::is_interrupted, crate::verif_common::stub_not_interrupted))]
+#[cfg_attr(kani, kani::stub(crate::decode::lzbuffer::LzAccumBuffer::from_stream, crate::decode::lzbuffer::verif_h::accum_from_stream_with_capacity))]
+pub fn lzma2_source_fails_k0() {
+    lzma2_source_fails::<0>()
+}
+
+//@ harness props=C12,C02 tier=thorough optional=yes unwind=8 unwindset=decompress:5,default_read_exact:4 mem_gb=6 timeout=600 native=no
+//@ bound: Lzma2Decoder::decompress on one uncompressed chunk (3 symbolic bytes) + end byte with the source failing on reader call 3
+#[cfg_attr(kani, kani::proof)]
+#[cfg_attr(kani, kani::stub(std::fmt::format, crate::verif_common::stub_format))]
+#[cfg_attr(kani, kani::stub(std::io::Error::is_interrupted, crate::verif_common::stub_not_interrupted))]
+#[cfg_attr(kani, kani::stub(crate::decode::lzbuffer::LzAccumBuffer::from_stream, crate::decode::lzbuffer::verif_h::accum_from_stream_with_capacity))]
+pub fn lzma2_source_fails_k3() {
+    lzma2_source_fails::<3>()
 }
